@@ -659,7 +659,17 @@ def _zone_and_extraction(ctx, m, T) -> None:
         f = nun(c.func)
         if f.startswith("re.") and c.args and "pattern" in un(c.args[0]):
             a0 = nun(c.args[0])
-            anchored = f == "re.fullmatch" or (a0.startswith("'^' + ") and a0.endswith(" + '$'"))
+
+            def parts(n):
+                if isinstance(n, ast.BinOp) and isinstance(n.op, ast.Add):
+                    return parts(n.left) + parts(n.right)
+                if isinstance(n, ast.JoinedStr):
+                    return [x.value if isinstance(x, ast.Constant) else None for x in n.values]
+                return [n.value if isinstance(n, ast.Constant) and isinstance(n.value, str) else None]
+            ps = parts(c.args[0])
+            head = isinstance(ps[0], str) and (ps[0].startswith("^") or ps[0].startswith("\\A"))
+            tail = isinstance(ps[-1], str) and (ps[-1].endswith("$") or ps[-1].endswith("\\Z"))
+            anchored = f == "re.fullmatch" or (tail and (head or f == "re.match"))      # '^' + p + '$', f'^{p}$', re.match(p + '$')
             uses.append((f, a0, anchored))
     ctx.ob("EXTRACT.anchored", "Formatter.parse/regex-uses", bool(uses) and all(u[2] for u in uses),
            f"regex applications of the format pattern: {uses}; extracting values with the un-anchored pattern stops at the first "
